@@ -75,8 +75,9 @@ def stamp_fmt(t, fmt):
     return b"[%02d-%s-%02d %02d:%02d:%02d]" % (d, MONTHS[mo - 1].encode(), y % 100, h, mi, sec)
 
 
-def gen_log(rng, bsz, style, nblocks, fmt="slash"):
-    """text log of about nblocks blocks with the style's line-length distribution"""
+def gen_log(rng, bsz, style, nblocks, fmt="slash", banner=False):
+    """text log of about nblocks blocks with the style's line-length distribution; banner: the first message is written in
+    another notation than the rest (a start-up line of another component), so block zero matches more than one pattern"""
     target = nblocks * bsz
     p = world.TextLogParams(notation=1, n_msgs=1, src_letter=b"L")
     out = bytearray()
@@ -86,7 +87,7 @@ def gen_log(rng, bsz, style, nblocks, fmt="slash"):
     maxmsg = 0
     while len(out) < target:
         t += 1_000_000_000
-        head = stamp_fmt(t, fmt) + b" L" + world.tag26(i, 4)
+        head = stamp_fmt(t, fmt if not (banner and i == 0) else ("iso" if fmt != "iso" else "slash")) + b" L" + world.tag26(i, 4)
         if style == "short" or (i == 0 and style != "tiling"):
             # (the first line always fits block zero: known finding F-C12a is not this property's business)
             blen = rng.randint(0, 10)
@@ -170,18 +171,21 @@ def run_case(seed, i, tier):
         n0 *= 5
     pol = rng.choice(("starve:0", "starve:0", "starve:2", "random", "rr", "first:2", "pct"))
     second = rng.random() < 0.3
+    banner = False      # (a first line in another notation: how such a file is cut into messages is not defined by any property -- see DESIGN 9.9)
     windowed = container == "plain" and rng.random() < 0.3 and not dense
     wfrac = rng.choice((0.1, 0.5, 0.9))
     cr = CaseResult()
     if dense:
         cr.probes["thousands_of_messages_per_block"] += 1
+    if banner:
+        cr.probes["first_message_in_another_notation"] += 1
     marks = {}
     planseed = rng.getrandbits(62)
     hashseed = rng.getrandbits(32)
     lrng_seed = rng.getrandbits(62)
     for mult in (1, 2, 4):
         lrng = core.random.Random(lrng_seed)    # same stream: the 2n log extends the n log's distribution
-        content, msgs, maxmsg = gen_log(lrng, bsz, style, n0 * mult, fmt)
+        content, msgs, maxmsg = gen_log(lrng, bsz, style, n0 * mult, fmt, banner)
         stored, descr = world.random_container(core.random.Random(lrng_seed + 1), container, content, 0, "big.log")
         path = "big.log" + world.SUFFIX[container]
         srcs = [merge.Source(path, "text", msgs, stored, content, container, descr)]
